@@ -123,6 +123,8 @@ fn main() {
     ev.rule = "distinct (scenario, worker count, quantum, full choice sequence) of a confluent scenario with at least one message or await".into();
     let model_path = opts.model.clone().expect("--model <qm_c03>");
     let mut model = Model::spawn(&model_path);
+    let variants = configure_model(&mut model);
+    ev.set_extra("runtime_variants", json!(variants));
 
     let scenarios = opts.tier.pick(110u64, 2500);
     let extra_schedules = opts.tier.pick(8u64, 40); // beyond the 16 worker×quantum combinations
